@@ -1,11 +1,12 @@
 # C07 - acknowledged metadata changes are never lost; replicas converge; snapshots are point-in-time images;
 #       no accepted request can poison the log.
 # spec: specs/metaraft (MetaCmds, MetaRaft, MetaRaftGen, MetaRaftTrace, MetaExec); harness: harness/meta
-import os, json, shutil
+import os, json, re, shutil
 from vcheck import Infra, log
 
 PKG = "services/meta"
 FILES = ["meta/zz_verif_metaraft_test.go"]
+VERIF = os.path.dirname(os.path.dirname(os.path.abspath(__file__)))
 
 # protobuf enum of internal.Command.Type (services/meta/internal/meta.proto) and the cases of storeFSM.Apply
 ENUM = {1: "CreateNodeCommand", 2: "DeleteNodeCommand", 3: "CreateDatabaseCommand", 4: "DropDatabaseCommand",
@@ -18,10 +19,14 @@ ENUM = {1: "CreateNodeCommand", 2: "DeleteNodeCommand", 3: "CreateDatabaseComman
         26: "UpdateDataNodeCommand", 27: "DeleteMetaNodeCommand", 28: "DeleteDataNodeCommand", 29: "SetMetaNodeCommand",
         30: "DropShardCommand", 31: "TruncateShardGroupsCommand", 32: "PruneShardGroupsCommand",
         33: "CopyShardOwnerCommand", 34: "RemoveShardOwnerCommand"}
-UNHANDLED = {7}
-UNKNOWN = {0, 20, 99}
+UNHANDLED = {7}          # in the enum, no case in storeFSM.Apply
+UNKNOWN = {0, 20, 99}    # outside the enum
 
 S = lambda *xs: ['"%s"' % x for x in xs]
+
+
+def kind_of(t):
+    return "unhandled" if t in UNHANDLED else ("unknown" if t in UNKNOWN else "handled")
 
 
 def mc_consts(**kw):
@@ -34,123 +39,140 @@ def mc_consts(**kw):
 INV = ["TypeOK", "C07_StateIsFold", "C07_AckedNeverLost", "C07_SnapshotIsPointInTime", "C07_ClientCacheIsFold",
        "C07_AckImpliesClientCaughtUp"]
 PROPS = "PROPERTIES C07_RestoreFidelity C07_ClientCacheMonotone"
+EXEC = {"Handled": sorted(set(ENUM) - UNHANDLED), "Unhandled": sorted(UNHANDLED), "Unknown": sorted(UNKNOWN)}
 
 
 def exhaustive(ctx, sd):
     q = ctx.quick()
     # snapshot / crash / restart / install family: two nodes, leader-issued commands
-    ctx.write_cfg(sd, "MCS.cfg", "Spec", mc_consts(Kinds=S("CDN", "UDN") if q else S("CDN", "UDN", "CSUB"), MaxCmds=2 if q else 3),
-                  INV, extra="SYMMETRY Sym\n" + PROPS)
-    ctx.tlc_check(sd, "MetaRaft", "MCS.cfg", workers=8, timeout=ctx.pick(400, 2400), coverage=not q)
+    # (measured: 3 commands x 3 kinds x 2 crashes exceeds 12 M states - not used)
+    ctx.write_cfg(sd, "MCS.cfg", "Spec", mc_consts(Kinds=S("CDN", "UDN") if q else S("CDN", "UDN", "CSUB"), MaxCmds=2,
+                                                   MaxCrashes=1 if q else 2), INV, extra="SYMMETRY Sym\n" + PROPS)
+    r = ctx.tlc_check(sd, "MetaRaft", "MCS.cfg", workers=8, timeout=ctx.pick(400, 3000), coverage=not q)
+    if not q:
+        # vacuity guard: every action of the module is taken (client actions are covered by the next config)
+        clientside = ("Propose", "Respond", "Fail", "WaitDone", "Poll")
+        zero = [z for z in r.get("zero_coverage", []) if "@MetaRaft:" in z and not z.startswith(clientside)]
+        if zero:
+            raise Infra("actions never taken in MCS: %s" % zero)
+        # the same family with three nodes (follower installs, two followers snapshotting independently)
+        ctx.write_cfg(sd, "MCS3.cfg", "Spec", mc_consts(Nodes=["n1", "n2", "n3"], Kinds=S("CDN"), MaxCmds=2, MaxCrashes=1),
+                      INV, extra="SYMMETRY Sym\n" + PROPS)
+        ctx.tlc_check(sd, "MetaRaft", "MCS3.cfg", workers=8, timeout=3000)
     # client family: three nodes, one client, acknowledgements, cache, leader changes, one crash
-    ctx.write_cfg(sd, "MCC.cfg", "Spec", mc_consts(Nodes=["n1", "n2", "n3"], Clients=S("c1"), MaxSnaps=0, MaxCrashes=1),
-                  INV, extra="SYMMETRY Sym\n" + PROPS)
-    ctx.tlc_check(sd, "MetaRaft", "MCC.cfg", workers=8, timeout=ctx.pick(400, 1800))
-    # liveness under fairness, no state constraint, no symmetry
+    ctx.write_cfg(sd, "MCC.cfg", "Spec", mc_consts(Nodes=["n1", "n2", "n3"], Clients=S("c1"), MaxSnaps=0, MaxCrashes=1,
+                                                   Kinds=S("CDN") if q else S("CDN", "UDN")), INV, extra="SYMMETRY Sym\n" + PROPS)
+    ctx.tlc_check(sd, "MetaRaft", "MCC.cfg", workers=8, timeout=ctx.pick(400, 3000))
+    # liveness under fairness: no state constraint, no symmetry
     ctx.write_cfg(sd, "MCL.cfg", "FairSpec", mc_consts(Nodes=S("n1", "n2"), Clients=S("c1"), Kinds=S("CDN"), MaxCmds=1 if q else 2,
                                                        MaxCrashes=1), [], extra="PROPERTIES C07_Converge")
-    ctx.tlc_check(sd, "MetaRaft", "MCL.cfg", workers=4, timeout=ctx.pick(400, 2400))
-    # request pipeline
-    ex = {"Handled": sorted(set(ENUM) - UNHANDLED), "Unhandled": sorted(UNHANDLED), "Unknown": sorted(UNKNOWN),
-          "Replicas": S("r1", "r2"), "WeakValidate": False}
-    ctx.write_cfg(sd, "MCX.cfg", "Spec", ex, ["C07_AcceptedNeverPoisonsLog", "C07_LogOnlyExecutable"])
-    ctx.tlc_check(sd, "MetaExec", "MCX.cfg", workers=2, timeout=300)
+    ctx.tlc_check(sd, "MetaRaft", "MCL.cfg", workers=4, timeout=ctx.pick(400, 3000))
+    # request pipeline: MetaExec is checked exhaustively by the run that enumerates its cases (fsm_level)
     if not q:
-        # negative controls: the invariants are able to fail (vacuity guard)
-        for name, consts, mod, what in [
-            ("NCS.cfg", mc_consts(Dev=S("persistLive")), "MetaRaft", "C07_SnapshotIsPointInTime"),
-            ("NCC.cfg", mc_consts(Nodes=["n1", "n2", "n3"], Clients=S("c1"), MaxSnaps=0, MaxCrashes=1, Dev=S("staleInstall")), "MetaRaft", "C07_ClientCacheMonotone"),
+        # negative controls: the invariants are able to fail on a model of the defects (vacuity guard)
+        for name, consts, what in [
+            ("NCS.cfg", mc_consts(Dev=S("persistLive"), MaxCrashes=1), "C07_SnapshotIsPointInTime"),
+            ("NCC.cfg", mc_consts(Nodes=["n1", "n2", "n3"], Clients=S("c1"), MaxSnaps=0, MaxCrashes=1, Kinds=S("CDN"), Dev=S("staleInstall")),
+             "C07_ClientCacheMonotone"),
         ]:
             ctx.write_cfg(sd, name, "Spec", consts, INV, extra="SYMMETRY Sym\n" + PROPS)
-            r = ctx.tlc_check(sd, mod, name, workers=8, timeout=1200, expect_ok=False)
+            r = ctx.tlc_check(sd, "MetaRaft", name, workers=8, timeout=1500, expect_ok=False)
             if r["ok"] or not any(what in v for v in r["violated"]):
                 raise Infra("negative control %s did not violate %s: %s" % (name, what, r["violated"]))
-        ctx.write_cfg(sd, "NCX.cfg", "Spec", dict(ex, WeakValidate=True), ["C07_AcceptedNeverPoisonsLog"])
+        ctx.write_cfg(sd, "NCX.cfg", "Spec", dict(EXEC, Replicas=S("r1", "r2"), WeakValidate=True), ["C07_AcceptedNeverPoisonsLog"])
         r = ctx.tlc_check(sd, "MetaExec", "NCX.cfg", workers=2, timeout=300, expect_ok=False)
         if r["ok"]:
             raise Infra("negative control NCX did not violate C07_AcceptedNeverPoisonsLog")
 
 
-def gen_consts(gl):
+def gen_consts(gl, dbs=("d1",), prelude=5):
+    # one database and three subscription names: subscriptions pile up on the same policy, so that dropping one
+    # that is not the last (the in-place shift) and updating an existing node happen while snapshots are held
     return {"Nodes": S("n1", "n2", "n3"), "Clients": [], "Kinds": S("CDB", "DDB", "CDN", "UDN", "CMN", "CSUB", "DSUB"),
-            "DBs": S("d1", "d2"), "SubNames": S("s1", "s2"), "Addrs": S("a1", "a2", "a3"), "Ids": [1, 2, 3],
-            "MaxCmds": 0, "MaxSnaps": 9, "MaxCrashes": 3, "Dev": [], "GenLen": gl, "MaxLog": 14, "MaxPubs": 3}
+            "DBs": S(*dbs), "SubNames": S("s1", "s2", "s3"), "Addrs": S("a1", "a2", "a3"), "Ids": [1, 2, 3],
+            "MaxCmds": 0, "MaxSnaps": 9, "MaxCrashes": 3, "Dev": [], "GenLen": gl, "MaxLog": 20, "MaxPubs": 3, "PreludeLen": prelude}
 
 
-def replay_fsm(ctx, sd):
-    gl = 36
-    num = ctx.pick(60, 600)
-    if ctx.replay:
-        behs = [json.load(open(ctx.replay))["replay"]["behaviour"]]
-    else:
-        ctx.write_cfg(sd, "Gen.cfg", "GSpec", gen_consts(gl), extra="INVARIANT Emit")
-        behs = ctx.tlc_generate(sd, "MetaRaftGen", "Gen.cfg", num=num, depth=gl + 1, timeout=900)[:num * 6]
-
-    def run(bs, label):
-        p = ctx.write_json("behR-%s.json" % label, {"behaviours": bs})
-        return ctx.go_test(PKG, FILES, "^TestVerifMetaReplay$", env={"VERIF_IN": p}, timeout=1200, label=label)
-
-    def confirm(rp):
-        recs, out, rc = run([rp["behaviour"]], "confirm")
-        return any(r.get("k") == "mismatch" for r in recs)
-    recs, out, rc = run(behs, "replay")
-    done = ctx.process(recs, out, rc, "TestVerifMetaReplay", confirm)
-    ctx.cov["traces_validated_against_impl"] += done.get("behaviours", 0)
-    return {"replayed_behaviours": done.get("behaviours", 0), "replayed_steps": done.get("steps", 0),
-            "replay_node_checks": done.get("node_checks", 0), "replay_actions": done.get("actions", {})}
+TESTS = {"R": "TestVerifMetaReplay", "RT": "TestVerifMetaRoundTrip", "X": "TestVerifMetaExec"}
 
 
-def roundtrip(ctx):
+def fsm_level(ctx, sd, which):
+    """Replay of generated behaviours (R), snapshot round trips (RT) and request bodies (X) on real storeFSMs
+    and the real /execute handler: one `go test` run serves the three drivers."""
+    inputs, rp = {}, None
     if ctx.replay:
         rp = json.load(open(ctx.replay))["replay"]
-        inp = {"one": True, "seed": rp["seed"], "ncmd": rp["ncmd"]}
-    else:
-        inp = {"seqs": ctx.pick(400, 6000), "len": 40, "seed": ctx.seed}
+    gl = 48
+    num = ctx.pick(40, 500)
+    if which in (None, "R"):
+        if rp:
+            behs = [rp["behaviour"]]
+        else:
+            ctx.write_cfg(sd, "Gen.cfg", "GSpec", gen_consts(gl), extra="INVARIANT Emit")
+            behs = ctx.tlc_generate(sd, "MetaRaftGen", "Gen.cfg", num=num, depth=gl + 1, timeout=1200)[:num * 8]
+            if not ctx.quick():
+                ctx.write_cfg(sd, "Gen2.cfg", "GSpec", gen_consts(gl, ("d1", "d2"), prelude=0), extra="INVARIANT Emit")
+                behs += ctx.tlc_generate(sd, "MetaRaftGen", "Gen2.cfg", num=num // 2, depth=gl + 1, seed=ctx.seed + 7, timeout=1200)[:num * 4]
+        inputs["R"] = {"behaviours": behs}
+    if which in (None, "RT"):
+        inputs["RT"] = {"one": True, "seed": rp["seed"], "ncmd": rp["ncmd"]} if rp else \
+                       {"seqs": ctx.pick(400, 6000), "len": 40, "seed": ctx.seed}
+    if which in (None, "X"):
+        if rp:
+            cases = [rp["case"]]
+        else:
+            ctx.write_cfg(sd, "GenX.cfg", "Spec", dict(EXEC, Replicas=S("r1", "r2"), WeakValidate=False),
+                          ["C07_AcceptedNeverPoisonsLog", "C07_LogOnlyExecutable"], extra="INVARIANT Emit")
+            behs = ctx.tlc_generate(sd, "MetaExec", "GenX.cfg", exhaustive=True, timeout=300)
+            cases = [{"type": b[0]["type"], "name": ENUM.get(b[0]["type"], "type%d" % b[0]["type"]), "class": b[0]["class"],
+                      "expect": b[0]["expect"], "kind": kind_of(b[0]["type"])} for b in behs]
+            want = (len(ENUM) + len(UNKNOWN)) * 7
+            if len(cases) != want:
+                raise Infra("MetaExec enumerated %d (type, class) cases, expected %d" % (len(cases), want))
+        inputs["X"] = {"cases": cases}
 
-    def run(i, label):
-        p = ctx.write_json("rt-%s.json" % label, i)
-        return ctx.go_test(PKG, FILES, "^TestVerifMetaRoundTrip$", env={"VERIF_IN": p}, timeout=1200, label=label)
+    def run(inp, label):
+        env = {}
+        for k, v in inp.items():
+            env["VERIF_IN_" + k] = ctx.write_json("in%s-%s-%d.json" % (k, label, len(os.listdir(ctx.scratch))), v)
+        rx = "^(" + "|".join(TESTS[k] for k in inp) + ")$"
+        return ctx.go_test(PKG, FILES, rx, env=env, timeout=1800, label=label)
 
-    def confirm(rp):
-        recs, out, rc = run({"one": True, "seed": rp["seed"], "ncmd": rp["ncmd"]}, "confirm")
-        return any(r.get("k") == "mismatch" for r in recs)
-    recs, out, rc = run(inp, "roundtrip")
-    done = ctx.process(recs, out, rc, "TestVerifMetaRoundTrip", confirm)
-    feats = done.get("features", {})
-    if not ctx.replay:
-        for need in ("users", "privileges", "subscriptions", "truncated-group", "group-starting-at-epoch0", "deleted-group"):
-            if not feats.get(need):
-                raise Infra("round-trip exploration never reached a value with %s (vacuous): %s" % (need, feats))
-    return {"roundtrip_values": done.get("values", 0), "roundtrip_features": feats}
+    def confirm(r):
+        t = r.get("test")
+        one = {"R": lambda: {"behaviours": [r["behaviour"]]}, "RT": lambda: {"one": True, "seed": r["seed"], "ncmd": r["ncmd"]},
+               "X": lambda: {"cases": [r["case"]]}}[t]()
+        recs, out, rc = run({t: one}, "confirm")
+        return any(x.get("k") == "mismatch" for x in recs)
 
-
-def exec_bodies(ctx, sd):
-    if ctx.replay:
-        cases = [json.load(open(ctx.replay))["replay"]["case"]]
-    else:
-        ex = {"Handled": sorted(set(ENUM) - UNHANDLED), "Unhandled": sorted(UNHANDLED), "Unknown": sorted(UNKNOWN),
-              "Replicas": S("r1"), "WeakValidate": False}
-        ctx.write_cfg(sd, "GenX.cfg", "Spec", ex, extra="INVARIANT Emit")
-        behs = ctx.tlc_generate(sd, "MetaExec", "GenX.cfg", exhaustive=True, timeout=300)
-        cases = []
-        for b in behs:
-            c = b[0]
-            cases.append({"type": c["type"], "name": ENUM.get(c["type"], "type%d" % c["type"]), "class": c["class"], "expect": c["expect"]})
-        want = (len(ENUM) + len(UNKNOWN)) * 7
-        if len(cases) != want:
-            raise Infra("MetaExec enumerated %d (type, class) cases, expected %d" % (len(cases), want))
-
-    def run(cs, label):
-        p = ctx.write_json("exec-%s.json" % label, {"cases": cs})
-        return ctx.go_test(PKG, FILES, "^TestVerifMetaExec$", env={"VERIF_IN": p}, timeout=600, label=label)
-
-    def confirm(rp):
-        recs, out, rc = run([rp["case"]], "confirm")
-        return any(r.get("k") == "mismatch" for r in recs)
-    recs, out, rc = run(cases, "exec")
-    done = ctx.process(recs, out, rc, "TestVerifMetaExec", confirm)
-    ctx.cov["traces_validated_against_impl"] += done.get("cases", 0)
-    return {"exec_cases": done.get("cases", 0), "exec_accepted": done.get("accepted", 0), "exec_rejected": done.get("rejected", 0)}
+    recs, out, rc = run(inputs, "fsm")
+    extra = {}
+    for k in inputs:
+        mine = [r for r in recs if (r.get("k") == "done" and r.get("test") == TESTS[k])
+                or (r.get("k") == "mismatch" and (r.get("replay") or {}).get("test") == k)
+                or (r.get("k") == "sample" and k == "R")]
+        done = ctx.process(mine, out, rc, TESTS[k], confirm)
+        if k == "R":
+            ctx.cov["traces_validated_against_impl"] += done.get("behaviours", 0)
+            extra.update({"replayed_behaviours": done.get("behaviours", 0), "replayed_steps": done.get("steps", 0),
+                          "replay_node_checks": done.get("node_checks", 0), "replay_actions": done.get("actions", {})})
+            if not rp and done:
+                for a in ("submit", "apply", "snapshot", "persist", "publish", "crash", "restart", "install"):
+                    if not done.get("actions", {}).get(a):
+                        raise Infra("generated behaviours never take action %s (vacuous): %s" % (a, done.get("actions")))
+        elif k == "RT":
+            feats = done.get("features", {})
+            if not rp and done and not done.get("bad_sequences"):
+                for need in ("users", "privileges", "subscriptions", "truncated-group", "group-starting-at-epoch0",
+                             "group-truncated-at-epoch0", "deleted-group"):
+                    if not feats.get(need):
+                        raise Infra("round-trip exploration never reached a value with %s (vacuous): %s" % (need, feats))
+            extra.update({"roundtrip_values": done.get("values", 0), "roundtrip_features": feats})
+        else:
+            ctx.cov["traces_validated_against_impl"] += done.get("cases", 0)
+            extra.update({"exec_cases": done.get("cases", 0), "exec_accepted": done.get("accepted", 0),
+                          "exec_rejected": done.get("rejected", 0), "exec_unbuildable": done.get("skipped", 0)})
+    return extra
 
 
 SCENARIOS_QUICK = [["snapshot-gated", "kill-first", "transfer", "snapshot-all", "restart-all"]]
@@ -163,56 +185,62 @@ SCENARIOS_THOROUGH = [
 
 
 def cluster(ctx, sd):
+    """Real 3-node meta cluster + real clients; the recorded trace is validated by MetaRaftTrace."""
     if ctx.replay:
         scs = [json.load(open(ctx.replay))["replay"]["scenario"]]
     else:
         lists = ctx.pick(SCENARIOS_QUICK, SCENARIOS_THOROUGH)
         scs = [{"seed": ctx.seed * 101 + i, "steps": s, "cmds": 2} for i, s in enumerate(lists)]
     out_extra = {"cluster_scenarios": 0, "trace_events": 0, "cluster_calls": 0, "cluster_acked": 0}
+    ctx.write_cfg(sd, "Trace.cfg", "TSpec", {}, extra="POSTCONDITION Post")
+    with open(os.path.join(sd, "Trace.cfg")) as fh:
+        txt = fh.read().replace("CONSTANTS\n", "")
+    with open(os.path.join(sd, "Trace.cfg"), "w") as fh:
+        fh.write(txt)
 
     def run_one(sc, label):
         tp = os.path.join(ctx.scratch, "trace-%s-%d.ndjson" % (label, len(os.listdir(ctx.scratch))))
         p = ctx.write_json("cl-%s.json" % label, {"scenarios": [sc], "trace": tp})
-        recs, out, rc = ctx.go_test(PKG, FILES, "^TestVerifMetaCluster$", env={"VERIF_IN": p}, timeout=900, label=label)
-        done = [r for r in recs if r.get("k") == "done"]
-        if not done or rc != 0:
-            raise Infra("cluster driver did not complete (rc=%s):\n%s" % (rc, out[-3000:]))
-        ctx.write_cfg(sd, "Trace.cfg", "TSpec", {}, extra="POSTCONDITION Post")
-        with open(os.path.join(sd, "Trace.cfg")) as fh:
-            txt = fh.read().replace("CONSTANTS\n", "")
-        with open(os.path.join(sd, "Trace.cfg"), "w") as fh:
-            fh.write(txt)
+        for attempt in (1, 2):
+            recs, out, rc = ctx.go_test(PKG, FILES, "^TestVerifMetaCluster$", env={"VERIF_IN": p}, timeout=900, label=label)
+            done = [r for r in recs if r.get("k") == "done"]
+            if done and rc == 0:
+                break
+            # no leader in time, port taken by another process, driver watchdog ...: the test bed failed, not the
+            # property.  One more attempt (the machine is shared), then the check declares itself broken.
+            if attempt == 2 or "INFRA:" not in out:
+                raise Infra("cluster driver did not complete (rc=%s):\n%s" % (rc, out[-3000:]))
+            log("note: cluster test bed failed (%s), retrying once" % (re.findall(r"INFRA: [^\n]*", out) or ["?"])[0][:300])
         res = ctx.tlc_trace(sd, "MetaRaftTrace", tp, cfg="Trace.cfg", timeout=600)
         why = ""
         if not res["accepted"]:
-            import re
             m = re.findall(r'<<"REJECT", "([^"]*)">>', res["out"])
             why = m[-1] if m else "?"
             if res["matched"] < 0 or why in ("", "?", "unknown-event"):
                 raise Infra("trace validation broke (matched=%s why=%s):\n%s" % (res["matched"], why, res["out"][-3000:]))
         return done[0], res, why, tp
 
+    last_ok = None
     for i, sc in enumerate(scs):
         done, res, why, tp = run_one(sc, "cluster%d" % i)
         out_extra["cluster_scenarios"] += 1
         out_extra["trace_events"] += done.get("events", 0)
         out_extra["cluster_calls"] += done.get("calls", 0)
         out_extra["cluster_acked"] += done.get("acked", 0)
-        if res["accepted"]:
-            ctx.cov["traces_validated_against_impl"] += 1
-            if i == 0:
-                with open(tp) as fh:
-                    lines = fh.read().splitlines()
-                ctx.add_sample({"trace_events": [json.loads(x) for x in lines[:3]], "total": len(lines)})
-            continue
         with open(tp) as fh:
             lines = fh.read().splitlines()
+        if res["accepted"]:
+            last_ok = tp
+            ctx.cov["traces_validated_against_impl"] += 1
+            if i == 0:
+                ctx.add_sample({"trace_events": [json.loads(x) for x in lines[:3]], "total": len(lines)})
+            continue
         bad = json.loads(lines[res["matched"]]) if 0 <= res["matched"] < len(lines) else {}
         sig = "trace:" + why
-        detail = "real cluster trace rejected by MetaRaftTrace at event %d of %d (%s): %s" % (res["matched"] + 1, len(lines), why, json.dumps(bad)[:900])
-        rp = {"test": "V", "scenario": sc}
+        detail = "real cluster trace rejected by MetaRaftTrace at event %d of %d (%s): %s" % (
+            res["matched"] + 1, len(lines), why, json.dumps(bad)[:900])
         if ctx.match_known(sig) is None and not ctx.replay:
-            # confirm: the same scenario must be rejected for the same reason again (up to 3 attempts; timing varies)
+            # confirm: the same scenario must be rejected for the same reason again (raft timing varies: 3 attempts)
             again = False
             for k in range(3):
                 d2, r2, w2, _ = run_one(sc, "confirm%d" % k)
@@ -221,18 +249,17 @@ def cluster(ctx, sd):
                     break
             if not again:
                 raise Infra("trace rejection %s did not reproduce: %s" % (sig, detail))
-        keep = os.path.join(os.path.dirname(os.path.dirname(os.path.abspath(__file__))), "replays", ctx.prop)
-        os.makedirs(keep, exist_ok=True)
-        if ctx.match_known(sig) is None:
+            keep = os.path.join(VERIF, "replays", ctx.prop)
+            os.makedirs(keep, exist_ok=True)
             shutil.copy(tp, os.path.join(keep, "trace-%s.ndjson" % why.replace(":", "_")))
-        ctx.report_mismatch(sig, detail, rp)
-    if not ctx.quick() and not ctx.replay and ctx.cov["traces_validated_against_impl"]:
-        negative_control(ctx, sd, tp)
+        ctx.report_mismatch(sig, detail, {"test": "V", "scenario": sc})
+    if not ctx.quick() and not ctx.replay and last_ok:
+        negative_control(ctx, sd, last_ok)
     return out_extra
 
 
 def negative_control(ctx, sd, tp):
-    """Binding is demonstrated: a corrupted copy of an accepted trace must be rejected."""
+    """Binding is demonstrated, not assumed: corrupted copies of an accepted trace must be rejected."""
     with open(tp) as fh:
         lines = fh.read().splitlines()
     evs = [json.loads(x) for x in lines]
@@ -241,23 +268,36 @@ def negative_control(ctx, sd, tp):
     if k is not None:
         e = dict(evs[k]); e["hash"] = "0000000000000000"
         muts.append(("persist-hash", k, e))
-    ks = [i for i, e in enumerate(evs) if e["e"] == "install"]
+    ks = [i for i, e in enumerate(evs) if e["e"] == "install" and e["c"] == "c1"]
     if len(ks) > 3:
-        e = dict(evs[ks[3]]); e["idx"] = evs[ks[1]]["idx"] - 1
+        e = dict(evs[ks[3]]); e["idx"] = evs[ks[2]]["idx"] - 1
         muts.append(("install-regress", ks[3], e))
     ks = [i for i, e in enumerate(evs) if e["e"] == "apply" and e["cmd"]["t"] == "UDN" and e["err"] == "ok"]
     if ks:
         e = json.loads(lines[ks[0]]); e["proj"]["nodes"] = e["proj"]["nodes"][:-1]
         muts.append(("apply-state", ks[0], e))
-    if len(muts) < 2:
+    ks = [i for i, e in enumerate(evs) if e["e"] == "restore"]
+    if ks:
+        muts.append(("restore-dropped-apply", None, ks[0]))
+    if len(muts) < 3:
         raise Infra("negative control: trace has no persist/install/apply events to corrupt")
     for name, k, e in muts:
         p = os.path.join(ctx.scratch, "neg-%s.ndjson" % name)
+        if k is None:
+            # delete the first apply event that follows a restore on that node: the node skipped a log entry
+            n = evs[e]["n"]
+            j = next((i for i in range(e + 1, len(evs)) if evs[i]["e"] == "apply" and evs[i]["n"] == n), None)
+            if j is None:
+                continue
+            out = lines[:j] + lines[j + 1:]
+        else:
+            out = lines[:k] + [json.dumps(e)] + lines[k + 1:]
         with open(p, "w") as fh:
-            fh.write("\n".join(lines[:k] + [json.dumps(e)] + lines[k + 1:]) + "\n")
+            fh.write("\n".join(out) + "\n")
         res = ctx.tlc_trace(sd, "MetaRaftTrace", p, cfg="Trace.cfg", timeout=600)
         if res["accepted"]:
             raise Infra("negative control %s: corrupted trace was accepted" % name)
+    ctx.cov["trace_negative_controls_rejected"] = len(muts)
 
 
 def run(ctx):
@@ -266,18 +306,20 @@ def run(ctx):
     which = None
     if ctx.replay:
         which = json.load(open(ctx.replay))["replay"].get("test")
-    stages = os.environ.get("VERIF_C07_STAGES", "mc,r,rt,x,v").split(",")   # development aid: run a subset
+    stages = os.environ.get("VERIF_C07_STAGES", "mc,f,v").split(",")   # development aid: run a subset of the stages
     if not ctx.replay and "mc" in stages:
         exhaustive(ctx, sd)
-    if which in (None, "R") and "r" in stages:
-        extra.update(replay_fsm(ctx, sd))
-    if which in (None, "RT") and "rt" in stages:
-        extra.update(roundtrip(ctx))
-    if which in (None, "X") and "x" in stages:
-        extra.update(exec_bodies(ctx, sd))
+    if which in (None, "R", "RT", "X") and "f" in stages:
+        extra.update(fsm_level(ctx, sd, which))
     if which in (None, "V") and "v" in stages:
-        extra.update(cluster(ctx, sd))
+        try:
+            extra.update(cluster(ctx, sd))
+        except Infra as e:
+            if not ctx.violations:
+                raise
+            # violations confirmed by the earlier stages stand; say that the cluster stage did not run to its end
+            log("note: cluster stage broken, reporting the violations found before it: %s" % str(e)[:600])
     return ctx.finish("model_checking", extra, assumptions=[
         "hashicorp/raft (log agreement, commit, election, log compaction, snapshot store) and boltdb are trusted and abstracted as one agreed log",
         "node failure = Service.Close() and re-open on the same directory inside one process (no power-loss / torn-write model for raft's own files)",
-        "cluster traces: the hook order is the recorder's lock order inside one process; no wall-clock ordering is used"])
+        "cluster traces: events are consumed in the order the hooks ran under the recorder lock of the one test process; no wall-clock ordering is used"])
